@@ -1,11 +1,11 @@
 """C09 - maze objects are values: total structural equality, consistent hash, valid ends."""
 ID = "C09"
 LEVEL = "proof"
-LEVEL_TEXT = 'Every clause of the statement is proved against the real function it rests on, for all grids and all maze kinds; what stays bounded is only WHICH dunder methods python finds on the classes (decided by the dataclass / muutils decorators, outside the prover) and the set / dict behaviour that follows from == and hash. PROVED (unbounded, z3): LatticeMaze.__eq__ returns exactly `same kind and identical connection structure, start, end, solution` for all nine kind pairs and all array shapes and never raises; equal mazes have equal hashes for all nine kind pairs (lemma hash_consistent: __eq__ through its proved contract, the real LatticeMaze.__hash__ / SolvedMaze.__hash__ bodies executed symbolically, bytes and hash() uninterpreted - a hash that reads the solution without the int64 cast, or any field __eq__ ignores, fails it); TargetedLatticeMaze.__post_init__ returns normally only with both endpoints inside the grid and raises ValueError otherwise; SolvedMaze.__init__ takes start and end from the two ends of the solution as given (a narrowing integer cast of the solution is a range obligation: values must fit) and returns only with both in the grid. Bounded, exhaustive on the 2x2 population: all ordered pairs of the three kinds x all 16 connection structures x endpoints x shortest solutions for ==, !=, hash, set/dict de-duplication; seeded single-difference variants on larger grids; MazeDataset ==; constructor rejection of negative / too-large endpoints. Which dunder methods exist is decided by dataclass/muutils reflection at class creation, outside the reach of a contract.'
+LEVEL_TEXT = 'Every clause of the statement is proved against the real function it rests on, for all grids and all maze kinds; what stays bounded is only WHICH dunder methods python finds on the classes (decided by the dataclass / muutils decorators, outside the prover) and the set / dict behaviour that follows from == and hash. PROVED (unbounded, z3): LatticeMaze.__eq__ returns exactly `same kind and identical connection structure, start, end, solution` for all nine kind pairs and all array shapes and never raises; equal mazes have equal hashes for all nine kind pairs (lemma hash_consistent: __eq__ through its proved contract, the real LatticeMaze.__hash__ / SolvedMaze.__hash__ bodies executed symbolically, bytes and hash() uninterpreted - a hash that reads the solution without the int64 cast, or any field __eq__ ignores, fails it); TargetedLatticeMaze.__post_init__ returns normally only with both endpoints inside the grid and raises ValueError otherwise; SolvedMaze.__init__ takes start and end from the two ends of the solution as given (a narrowing integer cast of the solution is a range obligation: values must fit) and returns only with both in the grid; the two from_lattice_maze class methods (what the generation pipeline and the conversions call) keep the connection structure, store the given ends / the ends of the solution, and raise ValueError exactly when an end is outside the grid. Bounded, exhaustive on the 2x2 population: all ordered pairs of the three kinds x all 16 connection structures x endpoints x shortest solutions for ==, !=, hash, set/dict de-duplication; seeded single-difference variants on larger grids; MazeDataset ==; constructor rejection of negative / too-large endpoints. Which dunder methods exist is decided by dataclass/muutils reflection at class creation, outside the reach of a contract.'
 LEVEL_NOTE = 'Trusted: numpy array_equal; list == list is equal lengths and pairwise == (MazeDataset.__eq__ is proved on that reading: equal configurations, equal lengths, pairwise equal mazes); ndarray.tobytes() is a function of dtype, shape and entries; hash() of equal objects is equal; python dispatches == / hash() to the dunder methods of the class (which ones are installed is decided by the decorators: bounded).'
 TECHNIQUE = "contract-based deductive verification of the real equality / hash / constructor functions (AST-derived VCs, z3) with the hash law as a lemma over them; bounded run-time checking (exhaustive on the 2x2 population) as cross-check and for what the decorators install"
-CONTRACT_MODULES = ['contracts.mazevalues', 'contracts.serialization']
-PROVE = [('maze_dataset/maze/lattice_maze.py', 'LatticeMaze.__eq__'), ('maze_dataset/maze/lattice_maze.py', 'TargetedLatticeMaze.__post_init__'), ('/verif/contracts/lemmas_src.py', 'hash_consistent'), ('maze_dataset/maze/lattice_maze.py', 'SolvedMaze.__init__'), ('maze_dataset/dataset/maze_dataset.py', 'MazeDataset.__eq__')]
+CONTRACT_MODULES = ['contracts.mazevalues', 'contracts.serialization', 'contracts.paths']
+PROVE = [('maze_dataset/maze/lattice_maze.py', 'LatticeMaze.__eq__'), ('maze_dataset/maze/lattice_maze.py', 'TargetedLatticeMaze.__post_init__'), ('/verif/contracts/lemmas_src.py', 'hash_consistent'), ('maze_dataset/maze/lattice_maze.py', 'SolvedMaze.__init__'), ('maze_dataset/dataset/maze_dataset.py', 'MazeDataset.__eq__'), ('maze_dataset/maze/lattice_maze.py', 'TargetedLatticeMaze.from_lattice_maze'), ('maze_dataset/maze/lattice_maze.py', 'SolvedMaze.from_lattice_maze')]
 ASSUMPTIONS = []
 EXPLANATION = "see DESIGN.md C09"
 
